@@ -203,6 +203,14 @@ struct Interp {
     auto target = [&]() -> RVal& { return isvar ? lookup(env, n) : tmp; };
     { RVal& o = target();
       if (o.t == RVal::Str && m == "concat") { RVal a = eval(env, e["args"][0]); RVal& oo = target(); if (a.t == RVal::Str) oo.s += a.s; else if (a.t == RVal::Int) { if (a.i < 0 || a.i > 255) throw RErr{21, ""}; oo.s.push_back((char)a.i); } else throw Unsupported{"string concat argument"}; return oo; }
+      if (o.t == RVal::Str && (m == "insert" || m == "put" || m == "delete")) {
+        RVal p = eval(env, e["args"][0]); need(p, RVal::Int, "string position"); RVal& oo = target();
+        if (m == "delete") { if (p.i < 0 || (size_t)p.i >= oo.s.size()) throw RErr{22, ""}; oo.s.erase((size_t)p.i, 1); return oo; }
+        RVal a = eval(env, e["args"][1]); RVal& o2 = target();
+        if (m == "put") { need(a, RVal::Int, "string put"); if (p.i < 0 || (size_t)p.i >= o2.s.size()) throw RErr{22, ""}; if (a.i < 0 || a.i > 255) throw RErr{21, ""}; o2.s[(size_t)p.i] = (char)a.i; return o2; }
+        if (p.i < 0 || (size_t)p.i > o2.s.size()) throw RErr{22, ""};
+        if (a.t == RVal::Str) o2.s.insert((size_t)p.i, a.s); else if (a.t == RVal::Int) { if (a.i < 0 || a.i > 255) throw RErr{21, ""}; o2.s.insert((size_t)p.i, 1, (char)a.i); } else throw Unsupported{"string insert argument"};
+        return o2; }
       if (o.t != RVal::Tab) throw Unsupported{m + " on non table"}; }
     std::vector<RVal> a; for (auto& x : e["args"]) a.push_back(eval(env, x));
     RVal& o = target();
@@ -240,7 +248,8 @@ struct Interp {
   Flow block(Env& env, const json& b) { for (auto& s : b) { Flow f = stmt(env, s); if (f != NORMAL) return f; } return NORMAL; }
 
   // loops release their iterator bindings on every exit route
-  struct IterGuard { Env& env; std::string n; bool ref; IterGuard(Env& e, const std::string& nn, bool r) : env(e), n(nn), ref(r) { env.busy_iters.push_back(n); } ~IterGuard() { env.busy_iters.pop_back(); if (ref) { env.refs.erase(n); env.vars.erase(n); } } };
+  // (a forall iterator is a null of the element type once its loop has ended, on every exit route)
+  struct IterGuard { Env& env; std::string n; bool ref; std::string elem; IterGuard(Env& e, const std::string& nn, bool r, const std::string& el = "") : env(e), n(nn), ref(r), elem(el) { env.busy_iters.push_back(n); } ~IterGuard() { env.busy_iters.pop_back(); if (ref) { env.refs.erase(n); if (elem.empty()) env.vars.erase(n); else env.vars[n] = RVal::N(elem); } } };
 
   Flow stmt(Env& env, const json& s) {
     step();
@@ -300,7 +309,7 @@ struct Interp {
       bool desc = s.value("dir", "") == "desc";
       long idx = desc ? (long)t.items.size() - 1 : 0;
       env.vars.erase(n); env.refs[n] = Ref{tn, idx};
-      IterGuard g(env, n, true);
+      IterGuard g(env, n, true, (t.elem == "integer" || t.elem == "string" || t.elem == "boolean" || t.elem == "decimal") ? t.elem : std::string());
       for (;;) {
         Flow f = block(env, s["body"]);
         if (f == BREAK) return NORMAL; if (f == RETURN) return RETURN;
